@@ -138,6 +138,107 @@ def run_sweep(case: Dict[str, Any]) -> Dict[str, Any]:
     return {"id": case["id"], "violations": viol, "violation_counts": {f"{p}|{m}": n for (p, m), n in vcount.items()}, "counters": dict(cnt), "summary": {"net": case["net"], "routes": cnt["c14_routes"], "speeds": sorted(speeds)[:8], "worst_excess_s": worst}}
 
 
+def run_instr(case: Dict[str, Any]) -> Dict[str, Any]:
+    """routes as the instructions hand them out: a vehicle is placed on a random link with a chosen remaining range (from far
+    too little to plenty) through the public state operations, the real DispatchStation / DispatchBase / Reposition
+    instruction is applied to it, and the route inside the resulting state is judged against Dijkstra."""
+    import dataclasses
+
+    import immutables
+    from hivemon.common import silence_logging
+    from hivemon.drive.tracer import Ctx, cleanup, load_case
+    from nrel.hive.dispatcher.instruction.instructions import DispatchBaseInstruction, DispatchStationInstruction, RepositionInstruction
+    from nrel.hive.model.energy.energytype import EnergyType
+    from nrel.hive.model.entity_position import EntityPosition
+    from nrel.hive.state.simulation_state import simulation_state_ops as sso
+    from returns.result import Failure
+
+    silence_logging()
+    rnd = random.Random(case["seed"])
+    viol, vcount, cnt = [], collections.Counter(), collections.Counter()
+
+    def violate(mech, msg, **w):
+        vcount[("C14", mech)] += 1
+        if vcount[("C14", mech)] <= 3:
+            viol.append({"property": "C14", "mechanism": mech, "message": msg, "step": None, "witness": {k: str(v)[:400] for k, v in w.items()}})
+
+    ctx = Ctx({"gen": case["gen"], "controller": None, "opts": {"record_generators": False}, "case_seed": 0})
+    try:
+        rp = load_case(ctx)
+        sim, env = rp.s, rp.e
+        rn = sim.road_network
+        links = sorted(rn.link_helper.links.values(), key=lambda l: l.link_id)
+        adj_t, adj_d = {}, {}
+        for l in links:
+            a, b = (int(x) for x in l.link_id.split("-"))
+            adj_t.setdefault(a, {})[b] = l.distance_km / l.speed_kmph * 3600.0
+            adj_d.setdefault(a, {})[b] = l.distance_km
+        ct, cd = {}, {}
+        bevs = [v for v in sim.get_vehicles() if EnergyType.ELECTRIC in v.energy and hasattr(env.mechatronics.get(v.mechatronics_id), "nominal_watt_hour_per_mile")]
+        stations = [s for s in sim.get_stations()]
+        bases = list(sim.get_bases())
+        if not bevs or not stations:
+            return {"id": case["id"], "violations": [], "counters": {}, "summary": {}}
+        for _ in range(case["n"]):
+            v = rnd.choice(bevs)
+            mech = env.mechatronics[v.mechatronics_id]
+            o = rnd.choice(links)
+            kind = rnd.choice(["station", "station", "base", "reposition"])
+            if kind == "station":
+                st = rnd.choice(stations)
+                dpos, instr = st.position, DispatchStationInstruction(v.id, st.id, sorted(st.state.keys())[0])
+                if not st.membership.grant_access_to_membership(v.membership):
+                    continue
+            elif kind == "base" and bases:
+                b = rnd.choice(bases)
+                dpos, instr = b.position, DispatchBaseInstruction(v.id, b.id)
+                if not b.membership.grant_access_to_membership(v.membership):
+                    continue
+            else:
+                tl = rnd.choice(links)
+                dpos, instr = EntityPosition(tl.link_id, tl.end), RepositionInstruction(v.id, tl.link_id)
+            u = int(o.link_id.split("-")[1])
+            w = int(dpos.link_id.split("-")[0])
+            if o.link_id == dpos.link_id:
+                continue
+            if u not in cd:
+                cd[u] = dijkstra_all(adj_d, u)
+                ct[u] = dijkstra_all(adj_t, u)
+            d_short, t_opt = cd[u].get(w), ct[u].get(w)
+            if d_short is None or t_opt is None:
+                continue
+            # remaining range from a fraction of the shortest way there up to plenty
+            rng_km = max(0.05, (d_short + o.distance_km) * rnd.choice([0.3, 0.8, 1.0, 1.1, 1.25, 1.5, 2.0, 4.0, 50.0]))
+            kwh = min(rng_km / 1.609344 * mech.nominal_watt_hour_per_mile * 0.001, mech.battery_capacity_kwh)
+            v2 = dataclasses.replace(v.modify_position(EntityPosition(o.link_id, o.start)), energy=immutables.Map({EnergyType.ELECTRIC: kwh}))
+            res = sso.modify_vehicle_safe(sim, v2)
+            if isinstance(res, Failure):
+                continue
+            err, out = instr.apply_instruction(res.unwrap(), env)
+            if err is not None or out is None or not hasattr(out.next_state, "route"):
+                continue
+            r = out.next_state.route
+            if len(r) < 2:
+                continue
+            try:
+                hops = [(int(l.link_id.split("-")[0]), int(l.link_id.split("-")[1])) for l in r[1:-1]]
+                cost = sum(adj_t[a][b] for a, b in hops)
+            except (KeyError, ValueError):
+                continue
+            if hops and (hops[0][0] != u or hops[-1][1] != w):
+                continue
+            if not hops and u != w:
+                continue
+            cnt["c14_instruction_routes"] += 1
+            if rng_km < d_short * 1.6:
+                cnt["c14_instruction_routes_with_little_range"] += 1
+            if cost > t_opt + 1e-6:
+                violate("route-slower-than-optimum", f"{type(instr).__name__} for a vehicle on link {o.link_id} with {rng_km:.2f} km of range: inner part of the route handed out takes {cost:.3f}s, the fastest path {u}->{w} takes {t_opt:.3f}s (shortest way {d_short:.2f} km)", excess_s=cost - t_opt, links=[l.link_id for l in r[1:-1]][:12])
+    finally:
+        cleanup(ctx)
+    return {"id": case["id"], "violations": viol, "violation_counts": {f"{p}|{m}": n for (p, m), n in vcount.items()}, "counters": dict(cnt), "summary": {"seed": case["seed"]}}
+
+
 def build_cases(tier, seed):
     cases = []
     rnd = random.Random(seed + 14)
@@ -166,16 +267,20 @@ def build_cases(tier, seed):
     n, steps = (16, 150) if tier == "quick" else (160, 400)
     for i in range(n):
         s = seed * 100000 + 14000 + i
-        prof = {"network": ["grid", "denver", "grid", "grid"][i % 4], "n_vehicles": (4, 12), "n_requests": (40, 200), "p_human": 0.3}
+        # (nearly empty vehicles included: what a vehicle is handed must be the fastest path whatever its range)
+        prof = {"network": ["grid", "denver", "grid", "grid"][i % 4], "n_vehicles": (4, 12), "n_requests": (40, 200), "p_human": 0.3, "soc": [0.004, 0.008, 0.015, 0.03, 0.3, 0.8], "p_ice": 0.1, "grid": {"stretch": 2.0, "speeds": "varied"}}
         ctrl = BUILTIN if i % 4 == 3 else hostile_stack(p=0.25, builtin=True, kinds=["DispatchBase", "DispatchStation", "Reposition", "DispatchTrip", "Idle"])
         cases.append(trace_case("C14", i, s, prof, ctrl, steps, ["C14R"]))
+    for j in range(8 if tier == "quick" else 120):
+        sj = seed * 100000 + 14500 + j
+        cases.append({"engine": "c14_instr", "id": f"C14-instr{j}", "seed": sj, "n": 600 if tier == "quick" else 1500, "gen": {"seed": sj, "profile": {"network": "grid", "grid": {"stretch": 2.5, "speeds": "varied", "n": 5 + j % 4}, "n_vehicles": (4, 8), "n_stations": (3, 5), "n_bases": (2, 3), "p_ice": 0.0, "custom_mech": 0.0, "fleets": 0, "n_requests": (5, 10)}}})
     if tier == "thorough":
         for j in range(16):
             cases.append({"engine": "c14_sweep", "id": f"C14-manhattan{j}", "seed": seed * 1000 + 900 + j, "net": {"type": "manhattan"}, "n": 2500})
     return cases
 
 
-FLOORS = {"quick": {"c14_routes": 25000, "c14_multi_link_routes": 20000, "c14_run_routes": 1000}, "thorough": {"c14_routes": 600000, "c14_multi_link_routes": 500000, "c14_run_routes": 20000}}
+FLOORS = {"quick": {"c14_routes": 25000, "c14_multi_link_routes": 20000, "c14_run_routes": 1000, "c14_instruction_routes": 1500, "c14_instruction_routes_with_little_range": 500}, "thorough": {"c14_routes": 600000, "c14_multi_link_routes": 500000, "c14_run_routes": 20000, "c14_instruction_routes": 50000, "c14_instruction_routes_with_little_range": 15000}}
 
 
 def main(tier, seed):
